@@ -98,6 +98,12 @@ func Registry(prop, tier string) []UniverseDef {
 	}
 	if prop == "C01" {
 		add(func() *Universe { return NewAlphaUniverse(NulSpec(), "string") }, "alpha[string]/NUL")
+		// byte-slice keys handed over in one reused buffer (keys are told apart by content, not by buffer identity)
+		for _, d := range C13Registry(tier) {
+			if strings.HasSuffix(d.Name, "/buf-shared") && !strings.Contains(d.Name, "LEN") {
+				out = append(out, d)
+			}
+		}
 	}
 	if prop == "C14" && tier != "thorough" {
 		// quick tier: the stop-position x re-iteration x nesting suite is quadratic in the tree size;
